@@ -177,7 +177,7 @@ def public_methods() -> list[str]:
     return sorted(n for n, _ in inspect.getmembers(APIClient) if not n.startswith("_"))
 
 
-def run(framing: str, api: tuple[int, int] = (1, 10), on_from_pb: Callable[[Any, Any, Any], None] | None = None) -> dict[str, Any]:
+def run(framing: str, api: tuple[int, int] = (1, 10), on_from_pb: Callable[[Any, Any, Any], None] | None = None, silent: bool = False) -> dict[str, Any]:
     """Run the sweep. Returns per-method outcomes, device-side received names per method, monitor data."""
     from aioesphomeapi import model as M
 
@@ -196,7 +196,12 @@ def run(framing: str, api: tuple[int, int] = (1, 10), on_from_pb: Callable[[Any,
         M.APIModelBase.from_pb = classmethod(spy)  # type: ignore[method-assign]
     try:
         with Sim() as sim:
-            dev = sim.device(full_device_config(noise, api))
+            dcfg = full_device_config(noise, api)
+            if silent:
+                # the device completes the session set-up and keeps the link alive but never answers a request: every awaiting method runs
+                # into its timeout path
+                dcfg.handlers = {n: (lambda c, m: None) for n in list(dcfg.handlers) + ["DeviceInfoRequest", "ListEntitiesRequest"]}
+            dev = sim.device(dcfg)
             kw = {"noise_psk": base64.b64encode(PSK).decode()} if noise else {}
             cli = sim.client(password="pw", keepalive=1e5, **kw)
             c0 = sim.call("connect", lambda: cli.connect(on_stop=sim.on_stop_cb(), login=True))
@@ -223,7 +228,7 @@ def run(framing: str, api: tuple[int, int] = (1, 10), on_from_pb: Callable[[Any,
                     r = R[name](cli, sim, rec)
                     if inspect.iscoroutine(r):
                         call = sim.call(name, lambda r=r: r)
-                        sim.run(until=lambda: call.done, max_time=sim.clock + 100)
+                        sim.run(until=lambda: call.done, max_time=sim.clock + 150)
                         outcome = call.outcome if call.outcome != "raised" else f"raised {call.exc!r}"
                     else:
                         outcome = "ok"
